@@ -134,9 +134,14 @@ CLAIMED = {
             "a node with a published-and-validated protection is never handed to the reclamation callback, scans reclaim exactly the retired nodes "
             "absent from their snapshot (each once), binary search correct on every sorted haystack with all probe indices in range, the snapshot "
             "array is never overrun while records register, retired_count <= 2*N*K always and <= N*K after a scan, threshold bounds (the exact "
-            "R = 2NK claim of the header comment is refuted during joins: a documented, safe deviation). Tied to /repo by per-access lock-step.",
-            "Trusts: Coq kernel; extraction + driver; rt/rt.c; SC interleaving; qsort returns a sorted permutation (Section hypothesis, discharged for "
-            "the model's insertion sort); -O0 build.",
+            "R = 2NK claim of the header comment is refuted during joins: a documented, safe deviation). The publish / full fence / re-validate protocol "
+            "is proved on an x86-TSO store-buffer machine (coq/HazardTSO.v: safe with the fence, an 11-step use-after-free without it, and the fence "
+            "invisible to every sequentially consistent model). The client built on it (mpmc_fifo.h) is discharged as a layer (theorems + lock-step "
+            "+ reclaimed-node oracle). Tied to /repo by per-access lock-step, by the shape obligations on hazard_pointer_using / store_load_barrier, "
+            "and by store-buffer (x86-TSO) runs of the real queue over the real hazard_pointer.c on every run.",
+            "Trusts: Coq kernel; extraction + driver; rt/rt.c (incl. its store-buffer mode and the guarded verif_fence hook); SC interleaving for the "
+            "lock-step; the TSO runs are a search, the TSO theorem is about a hand-written protocol model tied to the source by shape only; qsort "
+            "returns a sorted permutation (Section hypothesis, discharged for the model's insertion sort); -O0 build.",
             "DESIGN.md 6 C14"),
     "C01": ("Coq invariant (21 clauses) over a labelled protocol machine of the runtime + trace acceptance: the extracted machine must accept the "
             "protocol-event sequence of every real execution of the WHOLE runtime under a deterministic scheduler; implementation-side monitor",
